@@ -318,6 +318,8 @@ impl<'p> CoroutinePool<'p> {
                 }
             }
         }
+        #[cfg(feature = "verif-hooks")]
+        crate::verif::point("wait_task_result:before_register", task_id, 0);
         let arc = if let Some(arc) = self.waits.get(&task_id) {
             arc.clone()
         } else {
@@ -461,6 +463,8 @@ impl<'p> CoroutinePool<'p> {
             // todo windows support
             #[allow(unused_variables)]
             if let Some(pthread) = Scheduler::get_scheduling_thread(co_name) {
+                #[cfg(feature = "verif-hooks")]
+                crate::verif::point("try_cancel_task:before_signal", task_id, co_name);
                 // 发送SIGVTALRM信号，在运行时取消任务
                 #[cfg(unix)]
                 if nix::sys::pthread::pthread_kill(pthread, nix::sys::signal::Signal::SIGVTALRM)
